@@ -433,7 +433,8 @@ class Engine:
                 'file': os.path.relpath(m.path, self.repo.root), 'line': node.lineno,
                 'sha256': self.repo.sha_of(m, node), 'vcs': [r.to_json() for r in results], 'paths': len(paths),
                 'path_summaries': paths, 'dropped': sorted(dropped), 'wall_s': round(time.time() - t0, 3),
-                'props': c.props, 'trusted': c.trusted}
+                'props': c.props, 'trusted': c.trusted,
+                'replay_info': {'spec': c.spec, 'let': c.let, 'requires': c.requires, 'kind': kind}}
 
     def run_path(self, c, m, ci, node, kind, prefix, pid):
         path = Path(self, prefix)
@@ -444,6 +445,8 @@ class Engine:
         self.bctx = bc
         try:
             vals = {nm: b(bc, nm) for nm, b in c.params.items()}
+            path.inputs = vals
+            path.contract = c
             env = self.spec_env(it, c, m, vals)
             for nm, ex in c.let.items():
                 env.vars[nm] = self.eval_clause(it, ex, env)
@@ -461,6 +464,7 @@ class Engine:
                 return {'summary': {'id': pid, 'outcome': 'vacuous'}, 'vcs': vcs, 'dropped': []}
         memo = {}
         old_vals = {k: self.snapshot(v, memo) for k, v in vals.items()}
+        path.inputs = old_vals         # the pre-state is what a counter-model must be replayed from
         old_env = self.spec_env(it, c, m, old_vals)
         for nm, ex in c.let.items():
             old_env.vars[nm] = self.eval_clause(it, ex, old_env)
@@ -598,7 +602,7 @@ class Engine:
         s.add(z3.Not(g))
         r = s.check()
         backend = 'z3py-5.1'
-        size = len(s.sexpr())
+        size = sum(1 for _ in axioms.walk(hy + [g])) if len(hy) < 400 else -len(hy)
         model = None
         if r == z3.unknown:
             smt = s.to_smt2()
@@ -622,7 +626,7 @@ class Engine:
         return VCResult(name, st, backend, time.time() - t0, pid, ob.kind, model=model, detail=detail, size=size)
 
     def extract_model(self, path, solver, mdl):
-        """counter-model of the inputs, preferring small dimensions"""
+        """counter-model of the inputs (concrete python values for replay), preferring small dimensions"""
         if mdl is None:
             return None
         dims = path.dims
@@ -636,20 +640,56 @@ class Engine:
                 solver.pop()
                 break
             solver.pop()
-        out = {'dims': {}, 'consts': {}, 'funcs': {}}
-        for nme, d in dims.items():
-            v = mdl.eval(d, model_completion=True)
-            out['dims'][nme] = v.as_long()
-        for decl in mdl.decls():
-            nm = decl.name()
-            if '!' in nm and not nm.startswith(('h', 'r')):
-                continue
-            if decl.arity() == 0:
-                out['consts'][nm] = val_json(mdl[decl])
-            elif decl.arity() == 1 and decl.domain(0) == I:
-                n = max(out['dims'].values()) if out['dims'] else 4
-                out['funcs'][nm] = [val_json(mdl.eval(decl(z3.IntVal(k)), model_completion=True)) for k in range(min(n, 12))]
+        out = {'dims': {nme: mdl.eval(d, model_completion=True).as_long() for nme, d in dims.items()}}
+        try:
+            out['inputs'] = {k: self.concretize(v, mdl, {}) for k, v in getattr(path, 'inputs', {}).items()}
+        except Exception as e:      # replay is best effort; the verdict does not depend on it
+            out['inputs_error'] = f'{type(e).__name__}: {e}'
         return out
+
+    def concretize(self, v, mdl, memo):
+        ev = lambda t: val_json(mdl.eval(t, model_completion=True))
+        if isinstance(v, SV):
+            return ev(v.t)
+        if isinstance(v, (bool, int, str)) or v is None:
+            return v
+        if isinstance(v, Fraction):
+            return float(v)
+        if isinstance(v, Opt):
+            if z3.is_true(mdl.eval(v.isnone, model_completion=True)):
+                return None
+            return self.concretize(v.val, mdl, memo)
+        if isinstance(v, Vec):
+            n = v.n if isinstance(v.n, int) else mdl.eval(term(v.n), model_completion=True).as_long()
+            items = []
+            for k in range(min(n, 64)):
+                x = v.at(z3.IntVal(k)) if not isinstance(v.n, int) else v.at(k)
+                items.append(self.concretize(x, mdl, memo))
+            return {'__vec__': items}
+        if isinstance(v, Obj):
+            if id(v) in memo:
+                return {'__ref__': memo[id(v)]}
+            memo[id(v)] = len(memo)
+            cls = v.cls if isinstance(v.cls, str) else f'{v.cls.mod}.{v.cls.name}'
+            return {'__obj__': cls, '__id__': memo[id(v)],
+                    'fields': {k: self.concretize(x, mdl, memo) for k, x in v.fields.items()}}
+        if isinstance(v, list):
+            return [self.concretize(x, mdl, memo) for x in v]
+        if isinstance(v, tuple):
+            return {'__tuple__': [self.concretize(x, mdl, memo) for x in v]}
+        if isinstance(v, dict):
+            return {'__dict__': [[self.concretize(k if not (isinstance(k, tuple) and k and k[0] == 'sv') else k[2], mdl, memo),
+                                  self.concretize(x, mdl, memo)] for k, x in v.items()]}
+        if isinstance(v, SList):
+            n = mdl.eval(term(v.n), model_completion=True).as_long()
+            return [ev(z3.Select(v.arr, k)) for k in range(min(n, 400))]
+        if isinstance(v, Inf):
+            return {'__inf__': v.sign}
+        if isinstance(v, models.Absent):
+            if z3.is_true(mdl.eval(v.absent, model_completion=True)):
+                return {'__absent__': True}
+            return self.concretize(v.val, mdl, memo)
+        return {'__opaque__': repr(v)[:80]}
 
 
 def val_json(v):
